@@ -137,3 +137,62 @@ def valid_simplex_rows(Y, pa, pb):
 
 def simplex_is_tetrahedron(Y, pa, pb, min_quality=1e-9):
     return valid_simplex_rows(Y, pa, pb) == 4 and tetra_quality(Y) >= min_quality
+
+
+class PhaseCounter:
+    """sys.monitoring PY_START recorder: logs the sequence of calls of the given pure-Python functions so that
+    work can be attributed to phases of an algorithm (e.g. support evaluations during MPR's portal discovery
+    vs. refinement) without touching the source."""
+    TOOL = 3
+
+    def __init__(self, functions):
+        self.codes = {}
+        for name, f in functions.items():
+            f = getattr(f, "__func__", f)
+            f = getattr(f, "py_func", f)
+            self.codes[f.__code__] = name
+        self.log = []
+        self.active = False
+
+    def __enter__(self):
+        mon = sys.monitoring
+        try:
+            mon.use_tool_id(self.TOOL, "verif-phasecounter")
+        except ValueError:
+            pass
+        mon.register_callback(self.TOOL, mon.events.PY_START, self._cb)
+        for code in self.codes:
+            mon.set_local_events(self.TOOL, code, mon.events.PY_START)
+        self.log = []
+        self.active = True
+        return self
+
+    def _cb(self, code, offset):
+        if self.active:
+            n = self.codes.get(code)
+            if n is not None and len(self.log) < 100000:
+                self.log.append(n)
+
+    def __exit__(self, *a):
+        mon = sys.monitoring
+        self.active = False
+        for code in self.codes:
+            mon.set_local_events(self.TOOL, code, 0)
+        mon.register_callback(self.TOOL, mon.events.PY_START, None)
+        try:
+            mon.free_tool_id(self.TOOL)
+        except ValueError:
+            pass
+        return False
+
+    def per_phase(self, phase_names, unit):
+        """{phase: number of `unit` events logged while that phase was the most recently started one}"""
+        out = {}
+        cur = None
+        for n in self.log:
+            if n in phase_names:
+                cur = n
+                out.setdefault(cur, 0)
+            elif n == unit and cur is not None:
+                out[cur] += 1
+        return out
